@@ -63,6 +63,8 @@ def check(prop, tier, seed, jobs):
     tasks = mod.tasks(tier)
     args = [(modname, h, cfg, tier, seed) for h, cfg in tasks]
     split = getattr(mod, "SPLIT_DEPTH", 0) if jobs > 1 else 0
+    if tier == "thorough" and jobs > 1:
+        split = getattr(mod, "SPLIT_DEPTH_THOROUGH", split)
     if split:
         args = [(m_, h, dict(cfg, _split=split), t_, s_) for (m_, h, cfg, t_, s_) in args]
 
